@@ -9,6 +9,7 @@ import (
 	"os"
 	"path/filepath"
 	"strings"
+	"sync/atomic"
 	"unicode/utf8"
 
 	"github.com/cheggaaa/pb/v3"
@@ -212,6 +213,9 @@ func (ch LocalCache) restoreWorkspaceFile(cksum, workPath string) {
 	}
 }
 
+// tempLinkCount makes the temporary link names of concurrent workers distinct.
+var tempLinkCount uint64
+
 // replaceWithLink atomically replaces the workspace file at workPath with
 // a link to the cache object with the given checksum.
 func (ch LocalCache) replaceWithLink(cksum, workPath string) error {
@@ -223,7 +227,12 @@ func (ch LocalCache) replaceWithLink(cksum, workPath string) error {
 	if err != nil {
 		return err
 	}
-	tempLink := fmt.Sprintf("%s.dud-link-%d", workPath, os.Getpid())
+	// The temporary name must not depend on the file's own name: appending a
+	// suffix to a name close to NAME_MAX would make it too long.
+	tempLink := filepath.Join(
+		filepath.Dir(workPath),
+		fmt.Sprintf(".dud-link-%d-%d", os.Getpid(), atomic.AddUint64(&tempLinkCount, 1)),
+	)
 	if err := os.Symlink(linkTarget, tempLink); err != nil {
 		return err
 	}
